@@ -1,3 +1,4 @@
+import Secp.Proofs.GroupTies
 import Secp.Proofs.HashToGroup
 /-!
 # C08 — HashToGroup / EncodeToGroup conform to RFC 9380 for every message and DST
@@ -36,6 +37,43 @@ theorem empty_dst_panics (H : Bytes → Bytes) (msg : Bytes) :
 /-- the expander is `expand_message_xmd`, including DSTs longer than 255 bytes (oversize rule) -/
 theorem expander_is_rfc (H : Bytes → Bytes) (msg dst : Bytes) (len : Nat) (hd : dst ≠ []) (hl : (len + 31) / 32 ≤ 255) :
     Hand.Group.expandXMD H msg dst len = some (expandMessageXmd H msg dst len) := expandXMD_eq H msg dst len hd hl
+
+/-- **the expander regenerated from `xmd.go` on this run** (`GenXmd.expandXMD`: `checkDST`, `vetDSTXMD`, `i2osp2`, `hashAll`,
+the `xorSlices` index loop, the `for i := 2; i <= ell; i++` loop, the final re-slice, with every bounds check and the
+zero-length-DST panic as `none`) is `expand_message_xmd`: it does not panic and returns the RFC's bytes -/
+theorem expander_regenerated (H : Bytes → Bytes) (hH : HashOK H) (msg dst : Bytes) (len : Nat) (hd : dst ≠ [])
+    (hl : (len + 31) / 32 ≤ 255) :
+    GenXmd.expandXMD H msg dst len = some (expandMessageXmd H msg dst len) := by
+  rw [XmdTies.expandXMD_eq H hH.len msg dst len (by omega)]
+  exact expandXMD_eq H msg dst len hd hl
+
+/-- the regenerated expander panics (`none`) on an empty or nil DST -/
+theorem expander_regenerated_empty (H : Bytes → Bytes) (hH : HashOK H) (msg : Bytes) (len : Nat) (hl : len < 2^53) :
+    GenXmd.expandXMD H msg [] len = none := by
+  rw [XmdTies.expandXMD_eq H hH.len msg [] len hl]
+  exact expandXMD_empty H msg len
+
+/-- **C08 for the `HashToGroup` / `EncodeToGroup` regenerated from `group.go` on this run** (`GenGroup`: expander call, the
+re-slicing `uniform[:48]`, `uniform[48:96]` and slice-to-array conversions with their bounds checks, the regenerated `SSWU`,
+isogeny and complete addition; the wide reduction as modelled in `Hand.Fp`) -/
+theorem hashToGroup_regenerated (H : Bytes → Bytes) (hH : HashOK H) (msg dst : Bytes) (hd : dst ≠ []) :
+    ∃ R, GenGroup.hashToGroup Hand.limbOps GroupTies.handHashOps H msg dst = some R ∧ PtValid limbLawful R ∧
+      affPtG limbLawful R = hashToCurve H msg dst := by
+  rw [GroupTies.hashToGroup_tie H hH]
+  exact hashToGroup_spec H hH msg dst hd
+
+theorem encodeToGroup_regenerated (H : Bytes → Bytes) (hH : HashOK H) (msg dst : Bytes) (hd : dst ≠ []) :
+    ∃ R, GenGroup.encodeToGroup Hand.limbOps GroupTies.handHashOps H msg dst = some R ∧ PtValid limbLawful R ∧
+      affPtG limbLawful R = encodeToCurve H msg dst := by
+  rw [GroupTies.encodeToGroup_tie H hH]
+  exact encodeToGroup_spec H hH msg dst hd
+
+/-- the regenerated functions panic on an empty or nil DST -/
+theorem regenerated_empty_dst_panics (H : Bytes → Bytes) (hH : HashOK H) (msg : Bytes) :
+    GenGroup.hashToGroup Hand.limbOps GroupTies.handHashOps H msg [] = none ∧
+    GenGroup.encodeToGroup Hand.limbOps GroupTies.handHashOps H msg [] = none := by
+  rw [GroupTies.hashToGroup_tie H hH, GroupTies.encodeToGroup_tie H hH]
+  exact empty_dst_panics H msg
 
 /-- the 48-byte wide reduction is `OS2IP mod p` -/
 theorem wide_reduction (input : Bytes) (hb : IsBytes input) (hl : input.length = 48) :
